@@ -4,6 +4,7 @@ mod drivers;
 mod scn;
 mod store;
 mod util;
+mod world;
 
 fn main() {
     let argv: Vec<String> = std::env::args().collect();
@@ -15,6 +16,7 @@ fn main() {
     match argv[1].as_str() {
         "forget" => drivers::forget::run(&a),
         "probe" => drivers::probe::run(&a),
+        "repo" => drivers::repo::run(&a),
         d => {
             eprintln!("unknown driver {d}");
             std::process::exit(2);
